@@ -34,6 +34,9 @@ func RandFromBytes(b ...[]byte) (r Rand) {
 
 func NewRand() (r Rand) {
 	b := make([]byte, RandLength)
+	if simRandRead(b) {
+		return RandFromBytes(b)
+	}
 	rand.Read(b)
 	return RandFromBytes(b)
 }
